@@ -87,7 +87,7 @@ parsec_info_id_t parsec_info_register(parsec_info_t *nfo, const char *name,
             if( ie->iid == ret ) {
                 ret++;
             } else {
-                next_item = PARSEC_LIST_ITERATOR_NEXT(item);
+                next_item = item;
             }
         }
         if( 0 == strcmp(ie->name, name) ) {
